@@ -61,6 +61,7 @@ pub fn gen_swarm(rng: &mut Rng, profile: Profile) -> Swarm {
         start_s: 1_700_000_000 + rng.below(100_000_000),
         base_tx_index: rng.below(50) as u32,
         zero_ibc_ok: rng.chance(3, 10),
+        zero_tf_ok: rng.chance(3, 10),
     }
 }
 
@@ -130,7 +131,7 @@ fn cfg_sections(rng: &mut Rng, e: &Engine) -> Vec<CfgSection> {
         v.push(CfgSection::Native { unbonding: *rng.pick(&[1u64, 120, 120, 86_400, 86_400, 21 * 86_400, 21 * 86_400, u64::MAX, u64::MAX - 1_000_000]), validators: (0..n).map(|_| rng.below(5) as u8).collect(), staker: rng.below(3) as u8, collector: rng.below(3) as u8 });
     }
     if mask & 16 != 0 {
-        v.push(CfgSection::Protocol { min_stake: *rng.pick(&[0u128, 1, 100, 1_000_000]), oracle: rng.chance(85, 100), channel: if rng.chance(1, 3) { rng.below(5000) } else { e.sw.channel } });
+        v.push(CfgSection::Protocol { min_stake: *rng.pick(&[0u128, 1, 100, 1_000_000]), oracle: rng.chance(85, 100), channel: if rng.chance(1, 3) { rng.below(5000) } else { e.sw.channel }, spell: rng.below(4) as u8 });
     }
     v
 }
@@ -288,6 +289,16 @@ pub fn next_op(e: &Engine, rng: &mut Rng) -> Op {
             }
         }
         "admin_transfer" => table[14] += 30,
+        "admin_resume" => {
+            if e.m.l == 0 && e.m.n > 0 {
+                table[9] += 40; // rewards must be refused while no LST exists
+                table[0] += 20; // and the next stake sweeps the ownerless total
+            }
+        }
+        "admin_update_config" => {
+            table[4] += 12;
+            table[9] += 12;
+        }
         "recover" | "admin_forced_recover" => {
             if table[6] > 0 {
                 table[6] += 20
